@@ -9,6 +9,7 @@ Nothing in /repo is modified.  A seam that is missing (after a refactor) is repo
 SEAMS and the engines degrade; it is never turned into a violation.
 """
 import hashlib
+import contextlib
 import os
 import sys
 import time as _time
@@ -100,6 +101,19 @@ def boot():
     assert os.path.realpath(scared.__file__).startswith(os.path.realpath(REPO)), (scared.__file__, REPO)
     _install_numba_seams()
     return scared
+
+
+@contextlib.contextmanager
+def fp_env(mode):
+    """'warn': numpy's default floating-point error handling and a warnings filter that lets every warning through (recorded, not printed)."""
+    if mode != 'warn':
+        yield
+        return
+    import warnings
+    import numpy as np
+    with np.errstate(divide='warn', over='warn', under='ignore', invalid='warn'), warnings.catch_warnings(record=True):
+        warnings.simplefilter('always')
+        yield
 
 
 def _enable_cache(disp):
